@@ -288,6 +288,7 @@ bool CleanEval::Content(const std::string& path, std::string* out) {
     if (d->producer == pr) { *out = sc.DyndepText(*d); memo[path] = *out; return true; }
   }
   if (s.regen && path == "build.ninja") { *out = sc.ManifestText(); memo[path] = *out; return true; }
+  if (s.regen && path == "sub.ninja") { *out = sc.SubManifestText(); memo[path] = *out; return true; }
   in_progress.insert(pr);
   ContentFn get = [this](const std::string& p, std::string* c) { return Content(p, c); };
   std::vector<std::pair<std::string, std::string>> snap;
@@ -377,6 +378,11 @@ struct Gen {
       }
     }
     if (Has(F_SUBNINJA) && sc.stmts.size() >= 4 && C(3) == 0) sc.subninja = true;
+    // half of the generators of a split manifest declare both files and leave alone the one
+    // that did not change (restat): a regeneration may then rewrite sub.ninja only
+    if (sc.subninja)
+      for (Stmt& s : sc.stmts)
+        if (s.regen) { uint64_t x[2] = {(uint64_t)sc.stmts.size(), sc.features}; if (Hash64(x, sizeof x, 77) % 2 == 0) { s.restat = true; s.imp_outs.push_back("sub.ninja"); } }
     return sc;
   }
 
